@@ -164,8 +164,11 @@ static int slot_alloc(void)
 			thr[i].wait_m = NULL;
 			thr[i].dl_streak = 0;
 			thr[i].rng = (case_seed * 0x9E3779B97F4A7C15ULL) ^ ((uint64_t)(i + 1) << 32) ^ 0x5DEECE66DULL;
-			if (i >= nslots)
-				nslots = i + 1;
+			{	/* atomic maximum: two threads may take their first slots at the same moment */
+				int cur = atomic_load(&nslots);
+				while (cur < i + 1 && !atomic_compare_exchange_weak(&nslots, &cur, i + 1))
+					;
+			}
 			return i;
 		}
 	}
@@ -489,6 +492,9 @@ int __wrap_pthread_create(pthread_t *th, const pthread_attr_t *attr, void *(*fn)
 	return ret;
 }
 
+static struct dbg_join { unsigned long th; int ret, n; int st[8]; unsigned long pth[8]; int has[8]; } dbg_join[16];
+static int dbg_join_n;
+
 int __wrap_pthread_join(pthread_t th, void **retval)
 {
 	int ret;
@@ -512,6 +518,11 @@ int __wrap_pthread_join(pthread_t th, void **retval)
 			atomic_fetch_add(&epoch, 1);
 			atomic_store(&thr[vt_self()].state, T_RUNNING);
 		} else {
+			if (dbg_join_n < 16) {
+				struct dbg_join *d = &dbg_join[dbg_join_n++];
+				d->th = (unsigned long)th; d->ret = ret; d->n = nslots;
+				for (i = 0; i < 8; i++) { d->st[i] = thr[i].state; d->pth[i] = (unsigned long)thr[i].pth; d->has[i] = thr[i].has_pth; }
+			}
 			vt_block_end();
 		}
 	}
